@@ -1256,6 +1256,34 @@ def order_test(fn, R, bi):
     tr, fa = e.get("1", e["otherwise"]), e.get("0")
     if fa is None:
         return None
+    if d[0] == "phi" and not dl["proj"]:
+        # `let flag = a || b || x < y; if flag ..`: the constant arms were threaded past this switch (inline.py), the
+        # one that remains is the comparison
+        nonconst = [a for a in d[1] if not (strip(a)[0] == "const")]
+        if len(nonconst) == 1:
+            root = dl["local"]
+            for _ in range(4):
+                ds_ = fn.whole_defs(root)
+                if len(ds_) == 1 and ds_[0][0] == "stmt" and ds_[0][1]["k"] == "use" and op_place(ds_[0][1]["op"]) is not None and not op_place(ds_[0][1]["op"])["proj"]:
+                    root = op_place(ds_[0][1]["op"])["local"]
+                else:
+                    break
+            threaded = True
+            for kind_, payload_, b_, si_, pl_ in fn.whole_defs(root):
+                if kind_ == "stmt" and payload_["k"] == "use" and payload_["op"].get("k") == "const" and b_ in fn.cfg():
+                    nb_ = b_
+                    for _ in range(7):
+                        ss_ = fn.cfg().get(nb_, [])
+                        if len(ss_) != 1:
+                            break
+                        nb_ = ss_[0]
+                        if nb_ == bi:
+                            threaded = False
+                            break
+                        if fn.blocks[nb_]["stmts"]:
+                            break
+            if threaded:
+                d = strip(nonconst[0])
     if d[0] == "binop" and d[1] in ("Lt", "Le", "Gt", "Ge"):
         return d[2], d[1], d[3], tr, fa
     if d[0] == "call" and d[1].rsplit("::", 1)[-1] in ("lt", "le", "gt", "ge") and len(d[2]) >= 2:
